@@ -47,7 +47,11 @@ def main():
         t_proof, ctx.elapsed() - t_proof))
     print('distribution:', json.dumps(out.extra.get('order2_model'), sort_keys=True))
     for d in out.disagreements[:3]:
-        print('DISAGREEMENT (%s):' % d.get('label'), json.dumps(d['order2_pair'])[:6000])
+        pr = d['order2_pair']
+        print('DISAGREEMENT (%s):' % d.get('label'))
+        for key in ('prog', 'perm'):
+            print('   %s order: %s' % (key, ' '.join(s.get('id', s['kind']) for s in pr[key]['steps'] if s['kind'] != 'op')))
+        print('   pair:', json.dumps(pr)[:2500])
         print('   obligation:', d.get('obligation'))
         try:
             print('   impl on the permuted program:', str(gen_main.run_impl(d['order2_pair']['perm']))[:300])
